@@ -597,15 +597,15 @@ def rowShapeOK (t : Target) (kind : String) (e : Entry) : Bool :=
 
 /-- Rows that are not required to satisfy `rowOK`, each for a stated reason (Props/C05.lean proves
 what IS true of them and carries the negation witnesses; fav/props/c05.py replays the defects):
-  python/numpy `remainder` = "({0}) %% ({1})"  : `%%` is not an operator (written for %-formatting) — defect
   python `sign`   = "(0 if {0} == 0 else math.copysign(1, {0}))" : bare holes — defect with a `select` operand
   numpy  `item`   = "{0}[{1}]"                  : bare hole 0 — correct only for atomic operand text (search)
   cpp    `sign`   = "({0} == 0 ? {0} : std::copysign(1, {0}))" : bare holes — precedence side condition (search) -/
--- (cpp `floor` = "std::floot({0})" was exempt until /repo commit 1e6d6d5 fixed the spelling; the old row is kept
--- as a regression witness in Props/C05.lean `templates_witness`)
+-- (cpp `floor` = "std::floot({0})" was exempt until /repo commit 1e6d6d5 fixed the spelling, python/numpy
+-- `remainder` = "({0}) %% ({1})" until 3525211 made it "({0}) % ({1})"; the old rows are kept as regression
+-- witnesses in Props/C05.lean `templates_witness`)
 def exempt : Target → List String
-  | .python => ["remainder", "sign"]
-  | .numpy => ["remainder", "item"]
+  | .python => ["sign"]
+  | .numpy => ["item"]
   | .cpp => ["sign"]
 
 def badRows (t : Target) (tb : Tables) : List String :=
